@@ -347,7 +347,8 @@ pub(crate) fn rnd_i(n: &'_ Number, arena: &mut Arena) -> Result<Number, EvalErro
             const FIXNUM_MIN_TO_F: OrderedFloat<f64> = OrderedFloat(Fixnum::MIN as f64);
             const FIXNUM_MAX_TO_F: OrderedFloat<f64> = OrderedFloat(Fixnum::MAX as f64);
 
-            if (FIXNUM_MIN_TO_F..=FIXNUM_MAX_TO_F).contains(&f) {
+            // `Fixnum::MAX as f64` rounds up to 2^55 == Fixnum::MAX + 1, so the upper bound is exclusive
+            if (FIXNUM_MIN_TO_F..FIXNUM_MAX_TO_F).contains(&f) {
                 Ok(Number::Fixnum(
                     // Safety: We checked that the value is in range
                     unsafe { Fixnum::build_with_unchecked(f.into_inner() as i64) },
